@@ -1,1 +1,151 @@
-Theorem placeholder_removed_later : True. Proof. exact I. Qed. Print Assumptions placeholder_removed_later.
+(* C07 - Routing-table structural invariants.
+   Statements only; every theorem is closed by [exact] of a lemma proved in Proofs/KBucket*.v and
+   followed by Print Assumptions.  See DESIGN.md section 6 (C07).
+
+   [TInv c t]      : the structural invariant (bucket sizes, placement by log2 distance, no duplicate
+                     ids incl. pending, disconnected-before-connected with a consistent first-connected
+                     position, incoming limit) - its plain reading is C07_invariant_meaning;
+   [TInvAt c now t]: TInv + inside each group the nodes are ordered by the time of their last status
+                     report and no such time is later than [now] (C07_invariant_meaning_stamps).
+   The bucket filter and the table filter in [c] are arbitrary functions. *)
+From Coq Require Import List Arith NArith Permutation Sorted.
+From Discv5V Require Import Generated.Params Lib.ListX Model.KBucket
+  Proofs.KBucketInv Proofs.KBucketTable Proofs.KBucketPending.
+Import ListNotations.
+
+Theorem C07_invariant_initial : forall c loc, TInv c (new_table loc).
+Proof. exact TInv_new. Qed.
+Print Assumptions C07_invariant_initial.
+
+(* every operation of the op alphabet, at every time (no assumption on the clock) *)
+Theorem C07_invariant_step :
+  forall fixed c t o now, TInv c t -> TInv c (fst (step fixed c t o now)).
+Proof. exact step_inv. Qed.
+Print Assumptions C07_invariant_step.
+
+(* the ordering by time of last status report needs a clock that does not run backwards:
+   [t0] bounds every stamp in the table and [now] is not earlier *)
+Theorem C07_invariant_step_with_stamps :
+  forall fixed c t o t0 now,
+  TInvAt c t0 t -> (t0 <= now)%N -> TInvAt c now (fst (step fixed c t o now)).
+Proof. exact step_inv_at. Qed.
+Print Assumptions C07_invariant_step_with_stamps.
+
+Theorem C07_reachable :
+  forall fixed c loc ops, TInv c (fst (run fixed c (new_table loc) ops)).
+Proof. exact reachable_inv. Qed.
+Print Assumptions C07_reachable.
+
+Theorem C07_reachable_with_stamps :
+  forall fixed c loc ops t0,
+  times_mono t0 ops -> TInvAt c (last_time t0 ops) (fst (run fixed c (new_table loc) ops)).
+Proof. exact reachable_inv_at. Qed.
+Print Assumptions C07_reachable_with_stamps.
+
+(* what the invariant says *)
+Theorem C07_invariant_meaning : forall c t, TInv c t ->
+  length (buckets t) = NB /\
+  NoDup (table_keys t) /\
+  forall i b, nth_error (buckets t) i = Some b ->
+    length (nodes b) <= K /\
+    (forall k, In k (bkeys b) -> bucket_index (local t) k = Some i /\ k <> local t) /\
+    (exists D C, nodes b = D ++ C /\ Forall (fun n => nconn n = false) D /\
+                 Forall (fun n => nconn n = true) C /\ fcp b = fcp_of D C) /\
+    status_by_index b /\
+    count kin (nodes b) <= max_incoming c /\
+    (forall p, pend b = Some p -> ~ In (nkey (pn p)) (map nkey (nodes b))).
+Proof. exact TInv_spec. Qed.
+Print Assumptions C07_invariant_meaning.
+
+Theorem C07_invariant_meaning_stamps : forall c now t, TInvAt c now t ->
+  TInv c t /\
+  forall i b, nth_error (buckets t) i = Some b ->
+    stamps_sorted (filter (fun n => negb (nconn n)) (nodes b)) /\
+    stamps_sorted (filter nconn (nodes b)) /\
+    nodes b = filter (fun n => negb (nconn n)) (nodes b) ++ filter nconn (nodes b) /\
+    Forall (fun n => (nstamp n <= now)%N) (nodes b).
+Proof. exact TInvAt_spec. Qed.
+Print Assumptions C07_invariant_meaning_stamps.
+
+(* pending life cycle *)
+Theorem C07_apply_pending_spec : forall c b now,
+  let b' := fst (b_apply_pending c b now) in
+  match snd (b_apply_pending c b now) with
+  | None => nodes b' = nodes b /\ fcp b' = fcp b /\ (pend b' = pend b \/ pend b' = None)
+  | Some (ins, ev) =>
+      exists p, pend b = Some p /\ (preplace p <= now)%N /\ ins = nkey (pn p) /\ pend b' = None /\
+        run_filter (bfilter c) (nval (pn p)) (values (nodes b)) = true /\
+        let n := set_stamp (pn p) now in
+        match ev with
+        | None => is_full b = false /\ Permutation (nodes b') (n :: nodes b)
+        | Some e => is_full b = true /\
+                    exists h rest, nodes b = h :: rest /\ e = nkey h /\ nconn h = false /\
+                                   Permutation (nodes b') (n :: rest)
+        end
+  end.
+Proof. exact apply_pending_spec. Qed.
+Print Assumptions C07_apply_pending_spec.
+
+Theorem C07_reconnect_drops_pending : forall c T loc i b k dir now,
+  BInv c T loc i b -> position k (nodes b) = Some 0 ->
+  pend (fst (b_update_status c b k true dir now)) = None.
+Proof. exact reconnect_drops_pending. Qed.
+Print Assumptions C07_reconnect_drops_pending.
+
+Theorem C07_pending_only_when_full : forall c T loc i b n0 now d,
+  BInv c T loc i b -> snd (b_insert c b n0 now) = BPending d ->
+  is_full b = true /\ length (nodes b) = K /\ pend b = None /\ nconn n0 = true /\
+  exists h rest, nodes b = h :: rest /\ nconn h = false /\ d = nkey h /\
+    fst (b_insert c b n0 now) =
+      {| nodes := nodes b; fcp := fcp b;
+         pend := Some {| pn := set_stamp n0 now; preplace := (now + pending_timeout c)%N |} |}.
+Proof. exact pending_only_when_full. Qed.
+Print Assumptions C07_pending_only_when_full.
+
+Theorem C07_pending_created_only_by_pending_answer : forall c b n0 now,
+  (forall d, snd (b_insert c b n0 now) <> BPending d) ->
+  pend (fst (b_insert c b n0 now)) = pend b \/ pend (fst (b_insert c b n0 now)) = None.
+Proof. exact insert_pending_slot. Qed.
+Print Assumptions C07_pending_created_only_by_pending_answer.
+
+(* no index panic: every index the model hands to insert_at / remove_at / nth_error / the bucket
+   array is in range under the invariant *)
+Theorem C07_no_panic_fcp_in_range : forall c T loc i b p,
+  BInv c T loc i b -> fcp b = Some p -> p < length (nodes b).
+Proof. exact fcp_in_range. Qed.
+Print Assumptions C07_no_panic_fcp_in_range.
+
+Theorem C07_no_panic_position_in_range : forall k l pos, position k l = Some pos -> pos < length l.
+Proof. exact position_in_range. Qed.
+Print Assumptions C07_no_panic_position_in_range.
+
+Theorem C07_no_panic_reinsert_in_range : forall k (l : list node) pos,
+  position k l = Some pos -> pos <= length (remove_at pos l).
+Proof. exact reinsert_in_range. Qed.
+Print Assumptions C07_no_panic_reinsert_in_range.
+
+Theorem C07_no_panic_evict_insert_in_range : forall c T loc i b h rest q,
+  BInv c T loc i b -> nodes b = h :: rest -> fcp b = Some (S q) -> q <= length rest.
+Proof. exact evict_insert_in_range. Qed.
+Print Assumptions C07_no_panic_evict_insert_in_range.
+
+Theorem C07_no_panic_full_has_head : forall b, is_full b = true -> exists h rest, nodes b = h :: rest.
+Proof. exact full_has_head. Qed.
+Print Assumptions C07_no_panic_full_has_head.
+
+Theorem C07_no_panic_status_reinsert : forall c T loc i b k conn dir now pos old,
+  BInv c T loc i b -> position k (nodes b) = Some pos -> nth_error (nodes b) pos = Some old ->
+  let rest := remove_at pos (nodes b) in
+  forall f pd,
+  let r := snd (b_insert c {| nodes := rest; fcp := f; pend := pd |}
+                  {| nkey := nkey old; nval := nval old; nconn := conn;
+                     nin := match dir with Some d => d | None => nin old end; nstamp := nstamp old |} now) in
+  r = BInserted \/ r = BTooManyIncoming \/ r = BFailedFilter.
+Proof. exact status_reinsert_results. Qed.
+Print Assumptions C07_no_panic_status_reinsert.
+
+Theorem C07_no_panic_bucket_index_in_range : forall c T t k i,
+  TInvG c T t -> (local t < 2 ^ NUM_BUCKETS)%N -> (k < 2 ^ NUM_BUCKETS)%N ->
+  bucket_index (local t) k = Some i -> i < length (buckets t).
+Proof. exact table_index_in_range. Qed.
+Print Assumptions C07_no_panic_bucket_index_in_range.
